@@ -8,6 +8,8 @@
 #include "common.h"
 #include <Bpp/Numeric/Prob/Simplex.h>
 #include <Bpp/Numeric/ParameterExceptions.h>
+#include <Bpp/Numeric/VectorTools.h>
+#include <Bpp/Numeric/NumConstants.h>
 #include <Bpp/Text/TextTools.h>
 #include <cmath>
 #include <memory>
@@ -127,7 +129,14 @@ struct M {
       return "bad-op";
     }
     if (!s[k]) return "none";
-    if (op == "setfreq") { s[k]->setFrequencies(vec(t, 2)); return showS(*s[k]); }
+    if (op == "setfreq") {
+      // Simplex::setFrequencies reads probas[0 .. dim_-1] without a test once the sum test (on the whole
+      // argument) has passed: a shorter vector summing to one would be read out of bounds (undefined
+      // behaviour) and is not executed
+      std::vector<double> v = vec(t, 2);
+      if (v.size() < s[k]->dimension() && !(std::fabs(1. - VectorTools::sum(v)) > NumConstants::SMALL())) return "ub";
+      s[k]->setFrequencies(v); return showS(*s[k]);
+    }
     if (op == "setpar") { s[k]->matchParametersValues(allParams(*s[k], vec(t, 2))); return showS(*s[k]); }
     if (op == "setone") { s[k]->setParameterValue("theta" + t[2], hexToDouble(t[3])); return showS(*s[k]); }
     if (op == "setsome") { s[k]->setParametersValues(someParams(*s[k], t, 2)); return showS(*s[k]); }
